@@ -6,7 +6,9 @@ Sequential cases: `key k h1 h2`, `usehash 1|2`, `put k v`, `del k`, `pappend k c
 `import k:sv:children:lease;…` (`sv` = `~` nil, children `.` = none, `k:nil` = nil transfer), `remove k,k,…`,
 reads `get`, `plist`, `listkeys => <listing> <dump>`, `dump => <dump>`.
 Crash cases: `plan <op…>` (records the planned history), `ref n => <dump>` (real store, uncrashed, after n
-planned calls), `recovered <acked> <issued> => <dump>|openfail` (real store re-opened after SIGKILL).
+planned calls), `recovered <acked> <issued> [<crash image>] => <dump>|openfail` (real store re-opened after SIGKILL;
+the optional token names the crash image: kill on entry to the N-th pwrite64, or a torn log tail derived from the
+killed child's directory — judged exactly like the plain line).
 Deadline cases (the call's context ends while it runs): `dl <mode> <op…> => <result>` (`error` = the context's
 error / ErrTxDone: not acknowledged), `dlref => <result> <dump>` (a second real store that executes, without
 deadline, the calls that were acknowledged), `dlstate after <result> <op…> => <dump>` (the store under test after the call),
@@ -149,6 +151,26 @@ def trackerRows (dump : String) : List (String × Nat) :=
       (k, (if k ∈ sk then 1 else 0) + (if k ∈ pk then 2 else 0) + (if k ∈ lk then 4 else 0))
   | _ => []
 
+/-- the property statement on a store re-opened after a kill: it opens, its tracker rows agree with its data
+tables, and its tables are those of an uncrashed run of a prefix `n` of the issued calls, `acked ≤ n ≤ issued`.
+`how` (may be empty) names the crash image: the instant of the kill, or the torn log tail it left. -/
+def judgeRecovered (d : DState) (a i how rhs : String) : DState × Verdict :=
+  let ctx := if how = "" then "" else s!" (crash image: {how})"
+  match a.toNat?, i.toNat? with
+  | some a, some i =>
+    if rhs = "openfail" then (d, .spec s!"store does not re-open after the kill{ctx}")
+    else match dumpInconsistent d rhs with
+      | some e => (d, .spec s!"after recovery{ctx}: {e}")
+      | none =>
+        let cands := d.refs.filter fun (n, _) => decide (a ≤ n ∧ n ≤ i)
+        if cands.isEmpty then (d, .bad "no reference state in [acked, issued]")
+        else if cands.any (fun (x : Nat × String) => x.2 == rhs) then (d, .ok)
+        else
+          let lost := if a = i then s!"the {a} acknowledged calls are not all there" else
+            s!"acknowledged calls are missing or a call shows partly"
+          (d, .spec s!"recovered state is not the state after any prefix n of the issued calls, {a} ≤ n ≤ {i}: {lost}{ctx}")
+  | _, _ => (d, .bad "recovered args")
+
 def step' (d : DState) (toks : List String) (rhs : String) : DState × Verdict :=
   match toks with
   | ["reset"] => ({}, .ok)
@@ -171,18 +193,8 @@ def step' (d : DState) (toks : List String) (rhs : String) : DState × Verdict :
       | some e => (d', .spec e)
       | none => if m ≠ rhs then (d', .diff m) else (d', .ok)
     | none => (d, .bad "ref arg")
-  | ["recovered", a, i] =>
-    match a.toNat?, i.toNat? with
-    | some a, some i =>
-      if rhs = "openfail" then (d, .spec "store does not re-open after the kill")
-      else match dumpInconsistent d rhs with
-        | some e => (d, .spec s!"after recovery: {e}")
-        | none =>
-          let cands := d.refs.filter fun (n, _) => decide (a ≤ n ∧ n ≤ i)
-          if cands.isEmpty then (d, .bad "no reference state in [acked, issued]")
-          else if cands.any (fun (x : Nat × String) => x.2 == rhs) then (d, .ok)
-          else (d, .spec s!"recovered state is not the state after any prefix n of the issued calls, {a} ≤ n ≤ {i}")
-    | _, _ => (d, .bad "recovered args")
+  | ["recovered", a, i] => judgeRecovered d a i "" rhs
+  | ["recovered", a, i, how] => judgeRecovered d a i how rhs
   | "dl" :: _mode :: optoks =>
     match parseOp optoks rhs with
     | none => (d, .bad "dl op")
